@@ -453,6 +453,48 @@ func runC10(c *Ctx) {
 	})
 	evals += typeRuns
 	c.R.Set("memory_type_runs", typeRuns)
+	// (e2) single Steps of every implemented encoding from boundary-biased states
+	// (operands at FFFF, stack at the top of memory ...) on the bundled types
+	var typeSteps int64
+	{
+		encs := InScopeEncodings()
+		Parallel(len(encs), func(si int) {
+			enc := encs[si]
+			rig := rigPool.Get().(*StepRig)
+			defer func() {
+				rig.Direct = 0
+				rigPool.Put(rig)
+			}()
+			r := mon.NewRng(mon.Hash(uint64(c.Seed), uint64(enc.Key()), 0xC10E))
+			rig.Refill(r.U64())
+			per := c.Pick(96, 2000)
+			for k := 0; k < per; k++ {
+				sc := MakeStepCase(enc, r, k)
+				// aim pointers at the top of memory more often than C01 does
+				switch k % 6 {
+				case 0:
+					sc.Pre.SP = 0xffff - uint16(k/6%3)
+				case 1:
+					sc.Pre.HL.SetU16(0xffff)
+				case 2:
+					if n := len(sc.Bytes); n >= 3 {
+						sc.Bytes[n-3], sc.Bytes[n-2] = 0xff, 0xff
+					}
+				}
+				rig.Direct = 1 + k%2
+				o := rig.Run(&sc)
+				if o.Bad&BadDirect != 0 {
+					w := rig.Witness(enc, &sc, &o)
+					c.R.Violation("C10/memory-type/step/"+enc.String(), w)
+				}
+			}
+			mu.Lock()
+			typeSteps += int64(per)
+			mu.Unlock()
+		})
+	}
+	evals += typeSteps
+	c.R.Set("memory_type_single_steps", typeSteps)
 
 	// race detector reports
 	prefix := mon.RaceLogPrefix()
@@ -498,6 +540,6 @@ func runC10(c *Ctx) {
 	c.R.Set("goroutine_counts", map[string]int64{"2": gcounts[2], "4": gcounts[4], "8": gcounts[8], "16": gcounts[16]})
 	c.R.Set("alternating_pairs", alternations)
 	c.R.Set("exhaustive", false)
-	c.R.Set("rule", "generated programs over all instruction classes incl. prefixes, block repeats, undefined DD/FD/ED sequences and NMI/INT (all modes) raised by bus callbacks; (a) two runs from equal state compared per Step by digests of States+pending request+bus/port traffic; (b) at EVERY Step boundary k a CPU rebuilt from copies of States, the memory image, the device state and the pending request is run against a value copy of the original CPU (which keeps any hidden per-instance state), for 40 Steps (to the end from every 8th point), once as is and once with a fresh request injected at that boundary on both; (c) rounds of 2/4/8/16 goroutines each driving its own CPU behind a barrier, digests compared with the sequential baseline; (d) pairs of different programs stepped alternately; (e) each program also on z80.DumbMemory, a fully populated z80.MapMemory and tinycpm.Memory handed to the CPU directly: per-Step state digests and the final image must equal the run on the monitor memory; the whole binary runs under the Go race detector (halt_on_error=0, reports collected from log_path and attributed to z80 frames). Distinct = distinct (program, snapshot point) + concurrent rounds; every snapshot executes at least one Step")
+	c.R.Set("rule", "generated programs over all instruction classes incl. prefixes, block repeats, undefined DD/FD/ED sequences and NMI/INT (all modes) raised by bus callbacks; (a) two runs from equal state compared per Step by digests of States+pending request+bus/port traffic; (b) at EVERY Step boundary k a CPU rebuilt from copies of States, the memory image, the device state and the pending request is run against a value copy of the original CPU (which keeps any hidden per-instance state), for 40 Steps (to the end from every 8th point), once as is and once with a fresh request injected at that boundary on both; (c) rounds of 2/4/8/16 goroutines each driving its own CPU behind a barrier, digests compared with the sequential baseline; (d) pairs of different programs stepped alternately; (e) each program also on z80.DumbMemory, a fully populated z80.MapMemory and tinycpm.Memory handed to the CPU directly: per-Step state digests and the final image must equal the run on the monitor memory, plus single Steps of all 930 encodings from boundary-biased states (pointers and operands at FFFF) on DumbMemory/MapMemory directly; the whole binary runs under the Go race detector (halt_on_error=0, reports collected from log_path and attributed to z80 frames). Distinct = distinct (program, snapshot point) + concurrent rounds; every snapshot executes at least one Step")
 	c.R.Assume("CPU.HALT is not part of the rebuilt state (Step never reads it); R is included in the comparison")
 }
